@@ -147,6 +147,6 @@ if [ ! -x "$OUT" ]; then
 fi
 # prune old trees (keep the 4 most recently used)
 touch "$B/t/$TREE"
-ls -1dt "$B"/t/* 2>/dev/null | tail -n +5 | xargs -r rm -rf
+ls -1dt "$B"/t/* 2>/dev/null | tail -n +7 | xargs -r rm -rf
 ls -1dt "$B"/h/* 2>/dev/null | tail -n +3 | xargs -r rm -rf
 echo "$OUT"
